@@ -12,7 +12,7 @@ PROPERTY = "C19"
 CROSS_CHECK = True      # thorough: dumped assertion queries are re-decided by z3 4.8.12 and cvc5 1.0
 LEVEL = "model_checking"
 STUBS = ["array/bytes/Struct/BytesIO shadows", "float/math in the Bloom modules -> opaque floats (statistics run, their values are not modelled)",
-         "cuckoo: see C03; on-disk Bloom: the stubs of C11 (c11.queries, c11.clear are re-run here); set operations: the stubs of C04, C12, C13, C16"]
+         "cuckoo: see C03; on-disk Bloom: the stubs of C11 (c11.queries, c11.clear, c11.export are re-run here); set operations: the stubs of C04, C12, C13, C16"]
 ASSUMPTIONS = [
     "state = every cell, counter and table entry, compared term by term (and the exported bytes) before and after the read-only calls",
     "read-only calls per structure: check / check_alt / in / hashes / export / export_hex / __bytes__ / str / estimate_elements / current_false_positive_rate / export_size / load_factor / get_hashes / print / validate_metadata and property getters; the non-receiver side of union / intersection / jaccard / join / merge is asserted in C12, C13, C16 and C04",
@@ -215,5 +215,5 @@ def jobs(tier):
     js += [j for j in c16.jobs(tier) if j["h"] == "c16.cbf_merge" and j["cfg"]["est"] == 1]
     js += [j for j in c04.jobs("quick") if j["h"] == "c04.merge"]
     # on-disk Bloom filter: queries leave the file alone, clear() makes file and object those of a fresh filter
-    js += [j for j in c11.jobs(tier) if j["h"] in ("c11.queries", "c11.clear")]
+    js += [j for j in c11.jobs(tier) if j["h"] in ("c11.queries", "c11.clear", "c11.export")]
     return js
